@@ -32,6 +32,7 @@ class Ob:
     bound: str = ''                   # text of the bound for B
     mode: str = 'plain'               # plain | dfcc | legacy (goto-instrument without --dfcc)
     enforce: tuple = ()               # functions whose contract is enforced (dfcc only)
+    enforce_rec: tuple = ()           # recursive functions: --enforce-contract-rec (dfcc)
     replace: tuple = ()               # callees replaced by their contract
     loop_contracts: bool = False
     defines: tuple = ()
@@ -239,6 +240,8 @@ def build(ctx, ob, res, tag, extra_defines):
         gi = ['goto-instrument'] + list(ob.gi_flags) + ['--dfcc', ob.entry]
         for f in ob.enforce:
             gi += ['--enforce-contract', f]
+        for f in ob.enforce_rec:
+            gi += ['--enforce-contract-rec', f]
         for f in ob.replace:
             gi += ['--replace-call-with-contract', f]
         if ob.loop_contracts:
